@@ -23,6 +23,7 @@ type e1Case struct {
 	Zero  string            // Go expression of (*T)(nil)
 	Tags  map[string]string
 	Group string // cases sharing a non-empty group+AssignKey must not share a package
+	Key   string // for cases without Ty: cases with equal keys must not share a package
 }
 
 // roleSrc returns the function literal for a role on type T.
@@ -72,7 +73,7 @@ func batchCases(cases []*e1Case, size int) []*e1Batch {
 	var batches []*e1Batch
 	keysOf := []map[string]bool{}
 	for _, c := range cases {
-		k := ""
+		k := c.Key
 		if c.Ty != nil {
 			k = c.Group + "|" + c.Ty.AssignKey()
 		}
